@@ -6,4 +6,4 @@ mkdir -p .cache evidence replays
 export CARGO_NET_OFFLINE=true CARGO_TARGET_DIR="$PWD/.cache/target" RUSTFLAGS="-Awarnings --cfg cwe_checker_verif"
 [ -f harness/Cargo.lock ] || cp /repo/Cargo.lock harness/Cargo.lock
 (cd lean && lake build $(python3 ../tools/list_drivers.py))
-(cd harness && cargo build --release --offline --bins)
+(cd harness && cargo build --release --offline $(python3 ../tools/list_bins.py))
